@@ -166,3 +166,40 @@ void lemma_lanes(void) {
   __CPROVER_assert(r == v, "all eight byte lanes equal => values equal");
   REACH();
 }
+
+/* ------------------------------------------------------------------ instruction record of the real encoder */
+/* orc_bytecode_from_program on a program with no declarations and one arbitrary instruction: the append primitives are
+ * replaced by their contracts, the operand order d0 d1 s0 s1 s2 of the record is the postcondition (what the real
+ * decoder, orc_bytecode_parse_function, reads back in that order).  Entry states: every field of the instruction and
+ * every operand-size pattern of its opcode; variable indices < 255 (C05: < ORC_N_VARIABLES), flags < 65535. */
+#ifdef VERIF_INSN_RECORD
+static OrcStaticOpcode g_opc[4];
+static OrcOpcodeSet g_set;
+OrcOpcodeSet *orc_opcode_set_get (const char *name) { return &g_set; }
+void *orc_malloc (size_t size) { void *p = malloc(size); __CPROVER_assume(p != NULL); return p; }
+void lemma_insn_record(void) {
+  OrcProgram *p = calloc(1, sizeof(*p)); __CPROVER_assume(p != NULL);
+  unsigned oi = nondet_uint(); __CPROVER_assume(oi < 4);
+  g_set.opcodes = g_opc; g_set.n_opcodes = 4;
+  OrcStaticOpcode *op = &g_opc[oi];
+  OrcInstruction *in = &p->insns[0];
+  p->n_insns = 1; in->opcode = op;
+  unsigned fl = nondet_uint(); __CPROVER_assume(fl < 65535); in->flags = fl;
+  int arg[5], present[5];
+  for (int k = 0; k < 5; k++) { arg[k] = nondet_int(); __CPROVER_assume(arg[k] >= 0 && arg[k] < 255); }
+  in->dest_args[0] = arg[0]; in->dest_args[1] = arg[1]; in->src_args[0] = arg[2]; in->src_args[1] = arg[3]; in->src_args[2] = arg[4];
+  present[0] = op->dest_size[0] != 0; present[1] = op->dest_size[1] != 0;
+  present[2] = op->src_size[0] != 0; present[3] = op->src_size[1] != 0; present[4] = op->src_size[2] != 0;
+  long opos = 1 + (fl ? 1 + (fl < 255 ? 1 : 3) : 0);   /* BEGIN_FUNCTION, optional flags record, then the opcode byte */
+  int k = nondet_int(); __CPROVER_assume(k >= 0 && k < 5);   /* the operand looked at: universally quantified */
+  long kpos = opos + 1; for (int j = 0; j < 5; j++) if (j < k && present[j]) kpos++;
+  long n_ops = 0; for (int j = 0; j < 5; j++) if (present[j]) n_ops++;
+  g_ix[0] = opos; g_ix[1] = kpos; g_ix[2] = fl ? 1 : -1; g_old_alloc = 256;
+  OrcBytecode *b = orc_bytecode_from_program(p);
+  __CPROVER_assert(b->length == opos + 1 + n_ops + 2, "record length: [flags] opcode, one byte per present operand, END_FUNCTION, END");
+  __CPROVER_assert(B(b, opos) == oi + 32, "opcode byte is the opcode's index in the sys set + 32");
+  __CPROVER_assert(!present[k] || B(b, kpos) == (unsigned)arg[k], "operand k of the record is written at its position in the order d0 d1 s0 s1 s2");
+  __CPROVER_assert(!fl || B(b, 1) == ORC_BC_INSTRUCTION_FLAGS, "flags record precedes the opcode byte");
+  REACH();
+}
+#endif
